@@ -18,6 +18,21 @@ CHECKS = {
  'C11': dict(text='Generated programs are printed in two spellings differing in one documented sugar class (S1-S10) at one or all occurrences; both spellings, compiled and run on SQLite, must equal the reference evaluator value of the AST.',
              note='Trusted: CPython, sqlite3, Hypothesis, reference evaluator. S8 is not asserted when a list element contains a functional call to a table (two documented sugars interact).',
              technique='metamorphic property-based testing over spelling variants (Hypothesis)', ref='2/C11'),
+ 'C03': dict(text='Generated recursive programs (self, ring, dense mutual recursion, Min=/Max= recursion, negation of non-recursive predicates, multiset recursion) over graphs of <= 6 nodes at depths 1..30 incl. the > 20 iterative range executed through concertina_lib on SQLite; oracle class chosen by our own SCC/root/cut analysis: exact classes equal T^(depth+1)(empty) as a multiset, monotone set-valued programs under any strategy satisfy T^(depth+1) <= R <= lfp.',
+             note='Trusted: CPython, sqlite3, Hypothesis, reference evaluator lv/ref.py + step semantics lv/recgen.py. Programs not live within the bound are C19 territory and skipped (counted). SQLite statements needing > 192 MB heap are inconclusive (counted).',
+             technique='property-based differential testing against a reference step evaluator (Hypothesis)', ref='2/C03'),
+ 'C09': dict(text='Generated typed core-fragment programs printed once per engine (8 dialects); every concrete predicate is compiled: the outcome must be SQL or one of the four diagnostic exception types, and the SQL (preamble, defines_and_exports, main) must pass an independent per-dialect lexer + block scoper (balanced brackets/literals, alias.column in scope, WITH tables defined before use, no placeholder leak); SQLite output is also executed to calibrate the scoper in both directions.',
+             note='Trusted: CPython, sqlite3, Hypothesis, lv/sqlscope.py (lexers written from the engines documented lexical rules). Only SQLite is executed. Text inside $$...$$ is not examined.',
+             technique='property-based testing with a validity predicate (SQL lexer/scoper) over generated programs x 8 dialects (Hypothesis)', ref='2/C09'),
+ 'C10': dict(text='Hostile strings (alphabet of every character special to Logica, Python formatting and the eight SQL dialects + a dictionary of injection fragments) written in each literal form at 11 positions for all 8 engines: on SQLite the returned value must equal the string; in every dialect the emitted statement, tokenised by that dialects lexical rules, must have the token shape of the control string and its literal must decode to the string. ${flag} sub-domain: generated definitions with chains, DAGs, cycles, self-reference, undefined names and user overrides; compilation must end (substitution rounds counted, memory-bounded child) in the full expansion or a diagnostic.',
+             note='Trusted: CPython, sqlite3, Hypothesis, lv/sqlscope.py lexers. Strings never contain "${" (parameter introducer) in sub-domain A. One open known finding (line break inside a re-indented block) is excluded by construction and counted.',
+             technique='property-based round-trip / token-shape metamorphic testing (Hypothesis)', ref='2/C10'),
+ 'C13': dict(text='(a) every integration-corpus program that compiles offline and generated programs (recursion in every unfolding mode, functors, @Iteration, imports, udfs, type-checked dialects) compiled in fresh interpreters under PYTHONHASHSEED 0 and a drawn seed; (b) in-process histories from a Hypothesis RuleBasedStateMachine (parse, compile, failing compile, incantation main file, re-use of a rules object) compared step by step with the fresh-interpreter baseline; oracle: byte equality of SQL text, table_to_export_map and dependency edges after masking logical_stop_<digits>, and the caller-owned rules object unchanged.',
+             note='Trusted: CPython, Hypothesis. Hash seeds and histories are sampled. Order of dict keys of table_to_export_map / the edge list is noted, not compared.',
+             technique='property-based differential testing across hash seeds + stateful (rule-based state machine) testing against a fresh-process baseline (Hypothesis)', ref='2/C13'),
+ 'C14': dict(text='(A) random compile-shaped workflow plans (DAG of <= 10 actions, 0-2 flat or diamond iteration groups, repetitions 1-4, stop signals raised by the recording runner at a drawn call) handed to concertina_lib.ExecuteLogicaProgram as execution objects; (B) plans compiled from generated SQLite programs with several @Ground and deep recursion, run on a real connection; oracle: invariants over the sql_runner call log (inputs before readers, exactly-once, declared order x repetitions, prefix + at most one more pass after a stop signal, bounded number of calls) and equality of multi-predicate with single-predicate results.',
+             note='Trusted: CPython, sqlite3, Hypothesis, lv/plans.py log checker. Synthetic groups have only the two shapes recursion_library emits. No concurrency exists in concertina_lib; termination is decided as a bound on runner calls.',
+             technique='property-based testing of invariants over execution histories (generated plans + recording runner, Hypothesis)', ref='2/C14'),
  'C16': dict(text='Exhaustive enumeration of all ordered pairs of type terms of depth <= 2 over a reduced alphabet (1.67M pairs in quick) plus Hypothesis-sampled pairs and triples of depth <= 3 with shared TypeReference objects, reference chains and bare concrete children; oracle is an independent structural meet with bottom (two formulations cross-checked); symmetry, same-denotation, idempotence, information preservation, clash iff bottom, order independence of clash-free triples.',
              note='Trusted: CPython, Hypothesis, the independent oracle lv/typemeet.py. Cyclic (occurs-check) cases skipped; nothing asserted after a clash inside a triple.',
              technique='exhaustive enumeration + property-based testing against a reference model (Hypothesis)', ref='2/C16'),
